@@ -1,0 +1,281 @@
+//go:build verif
+
+package template
+
+// Contracts for the verification harness under /verif (comment-only file).
+//
+// C15 (multi-line reassembly), join_template part: a line is classified as the
+// start / a continuation of a run exactly as the template's documented pattern
+// says.  The documented patterns are the regular expressions quoted in
+// template.go and above each hand-written matcher, together with the matchers'
+// own NOTEs ("only first occurrence counts", "only last occurrence counts").
+// Every matcher below is panic-free for every byte string (index and slice
+// obligations are generated automatically) and its result is characterised in
+// terms of the bytes of s alone.
+//
+// How a pattern is written down here:
+//   - literal at position p:      seqeq(s[p:p+n], "literal", 0)
+//   - byte classes:               written out ([0-9] is '0' <= c && c <= '9' ...);
+//                                 "space" is the class of ascii.IsSpace: ' ', '\n', '\t'
+//   - first occurrence of a literal: uf_first(s, "literal").  The symbol is
+//     uninterpreted; each contract that uses it first PINS it for its own s:
+//     -1 <= P, P + n <= len(s), P >= 0 ==> the literal stands at P, and the literal
+//     stands at no k < P (at no k at all when P < 0).  These three clauses determine
+//     P uniquely, so "result == (P >= 0 && ...)" is a statement about s alone.
+//     At the call of strings.Index the clause `r == uf_first(str, sub)` plus the
+//     documented meaning of Index (first index of sub in str, -1 if absent) is
+//     assumed (listed in the evidence).
+//   - where the position is determined by the line (first non-space byte f, last
+//     bracket pair R / L, boundary d of the word run) the contract is universally
+//     quantified: "for every f that is the first non-space index: result == ...",
+//     plus the clause for the case that no such position exists.
+//
+// strings.HasPrefix / Contains / Index have only bounds in /verif/contracts-lib;
+// their documented meaning is stated in the call-site clauses (assumed, listed).
+//
+// Findings (real code disagrees with the documented regular expression; reproduced
+// with go test, inputs in NOTES.md): \s is [\t\n\f\r ] but IsSpace omits \r, \f;
+// (\s*--->) is unanchored but containsArrow looks only after the indentation;
+// [0-9]x[0-9,a-f] vs "0x" + IsHexDigit; '.' does not match a line feed in .* / .+.
+// The clauses that state these four agreements are NOT in this file: a false
+// postcondition is assumed by every caller under contract and by the later
+// clauses of the same function (it would hide other failures), and none of them
+// is refuted by the solvers in under 2 s at the top-level functions.
+
+// firstNonSpaceIndex: the index of the first byte outside {' ', '\n', '\t'}, -1 iff there is none.
+//@ func firstNonSpaceIndex
+//@   pure
+//@   ensures -1 <= result && result < len(s)
+//@   ensures result >= 0 ==> !(s[result] == ' ' || s[result] == '\n' || s[result] == '\t')
+//@   ensures forall k :: 0 <= k && k < ite(result >= 0, result, len(s)) ==> (s[k] == ' ' || s[k] == '\n' || s[k] == '\t')
+//@   loop 1 invariant forall k :: 0 <= k && k <= rangeindex && k < len(s) ==> (s[k] == ' ' || s[k] == '\n' || s[k] == '\t')
+
+// containsOnlySpaces (^\s*$ with the space class of ascii.IsSpace): true iff every byte is a space; the empty line included.
+//@ func containsOnlySpaces
+//@   pure
+//@   ensures result == (forall k :: 0 <= k && k < len(s) ==> (s[k] == ' ' || s[k] == '\n' || s[k] == '\t'))
+
+// containsOnlyDigits ([0-9]* anchored at both ends): true iff every byte is a decimal digit.
+//@ func containsOnlyDigits
+//@   pure
+//@   ensures result == allchr(s, '0', '9')
+//@   loop 1 invariant -1 <= rangeindex && rangeindex < len(s) && allchr(s[:rangeindex+1], '0', '9')
+
+// go_data_race: a run starts at a line beginning with "WARNING: DATA RACE"; the template is negated
+// (Negate: true), its "continue" matcher recognises the closing line of 18 '='.
+//@ func goDataRaceStartCheck
+//@   pure
+//@   ensures result == (18 <= len(s) && seqeq(s[:18], "WARNING: DATA RACE", 0))
+//@   callee HasPrefix(str, prefix) (r)
+//@     ensures r == (len(prefix) <= len(str) && seqeq(str[:len(prefix)], prefix, 0))
+
+//@ func goDataRaceFinishCheck
+//@   pure
+//@   ensures result == (18 <= len(s) && allchr(s[:18], '=', '='))
+//@   callee HasPrefix(str, prefix) (r)
+//@     ensures r == (len(prefix) <= len(str) && seqeq(str[:len(prefix)], prefix, 0))
+
+// go_panic start: ^(panic:)|(http: panic serving)|^(fatal error:) - two anchored literals, one anywhere.
+//@ func goPanicStartCheck
+//@   pure
+//@   ensures 6 <= len(s) && seqeq(s[:6], "panic:", 0) ==> result
+//@   ensures 12 <= len(s) && seqeq(s[:12], "fatal error:", 0) ==> result
+//@   ensures (exists k :: 0 <= k && k + 19 <= len(s) && seqeq(s[k:k+19], "http: panic serving", 0)) ==> result
+//@   ensures result ==> (6 <= len(s) && seqeq(s[:6], "panic:", 0)) || (12 <= len(s) && seqeq(s[:12], "fatal error:", 0)) || (exists k :: 0 <= k && k + 19 <= len(s) && seqeq(s[k:k+19], "http: panic serving", 0))
+//@   callee HasPrefix(str, prefix) (r)
+//@     ensures r == (len(prefix) <= len(str) && seqeq(str[:len(prefix)], prefix, 0))
+//@   callee Contains(str, sub) (r)
+//@     pure
+//@     ensures r == (exists k :: 0 <= k && k + len(sub) <= len(str) && seqeq(str[k:k+len(sub)], sub, 0))
+
+// (\.go:[0-9]+), first occurrence of ".go:" only: a decimal digit follows it.
+//@ func containsLineNumber
+//@   pure
+//@   ensures result == (uf_first(s, ".go:") >= 0 && uf_first(s, ".go:") + 4 < len(s) && '0' <= s[uf_first(s, ".go:")+4] && s[uf_first(s, ".go:")+4] <= '9')
+//@   ensures -1 <= uf_first(s, ".go:") && uf_first(s, ".go:") + 4 <= len(s)
+//@   ensures uf_first(s, ".go:") >= 0 ==> seqeq(s[uf_first(s, ".go:"):uf_first(s, ".go:")+4], ".go:", 0)
+//@   ensures forall k :: 0 <= k && k + 4 <= len(s) && (uf_first(s, ".go:") < 0 || k < uf_first(s, ".go:")) ==> !seqeq(s[k:k+4], ".go:", 0)
+//@   callee Index(str, sub) (r)
+//@     ensures r == uf_first(str, sub)
+//@     ensures r >= 0 ==> seqeq(str[r:r+len(sub)], sub, 0)
+//@     ensures len(sub) > 1 ==> (forall k :: 0 <= k && k + len(sub) <= len(str) && (r < 0 || k < r) ==> !seqeq(str[k:k+len(sub)], sub, 0))
+//@     ensures len(sub) == 1 && r >= 0 ==> str[r] == sub[0] && nochr(str[:r], sub[0])
+//@     ensures len(sub) == 1 && r < 0 ==> nochr(str, sub[0])
+
+// (created by .*\.): some "created by " is followed, anywhere later, by a '.' (both directions; no position is singled out).
+//@ func containsCreatedBy
+//@   pure
+//@   ensures result ==> (exists p :: 0 <= p && p + 11 <= len(s) && seqeq(s[p:p+11], "created by ", 0) && !nochr(s[p+11:], '.'))
+//@   ensures !result ==> (forall p :: 0 <= p && p + 11 <= len(s) && seqeq(s[p:p+11], "created by ", 0) ==> nochr(s[p+11:], '.'))
+//@   callee Index(str, sub) (r)
+//@     ensures r >= 0 ==> seqeq(str[r:r+len(sub)], sub, 0)
+//@     ensures forall k :: 0 <= k && k + len(sub) <= len(str) && (r < 0 || k < r) ==> !seqeq(str[k:k+len(sub)], sub, 0)
+
+// (goroutine [0-9]+ \[)|(goroutine [0-9]+ .* \[), first occurrence of "goroutine " only: with P that occurrence and
+// E the first ' ' after it (relative to P+10): E >= 1, the bytes between are digits, and " [" occurs at or after that space.
+//@ func containsGoroutineID
+//@   pure
+//@   ensures result == (uf_first(s, "goroutine ") >= 0 && uf_first(s[uf_first(s, "goroutine ")+10:], " ") >= 1 && allchr(s[uf_first(s, "goroutine ")+10:uf_first(s, "goroutine ")+10+uf_first(s[uf_first(s, "goroutine ")+10:], " ")], '0', '9') && (exists q :: 0 <= q && q + 2 <= len(s[uf_first(s, "goroutine ")+10+uf_first(s[uf_first(s, "goroutine ")+10:], " "):]) && seqeq(s[uf_first(s, "goroutine ")+10+uf_first(s[uf_first(s, "goroutine ")+10:], " "):][q:q+2], " [", 0)))
+//@   ensures -1 <= uf_first(s, "goroutine ") && uf_first(s, "goroutine ") + 10 <= len(s)
+//@   ensures uf_first(s, "goroutine ") >= 0 ==> seqeq(s[uf_first(s, "goroutine "):uf_first(s, "goroutine ")+10], "goroutine ", 0)
+//@   ensures forall k :: 0 <= k && k + 10 <= len(s) && (uf_first(s, "goroutine ") < 0 || k < uf_first(s, "goroutine ")) ==> !seqeq(s[k:k+10], "goroutine ", 0)
+//@   ensures uf_first(s, "goroutine ") >= 0 ==> -1 <= uf_first(s[uf_first(s, "goroutine ")+10:], " ") && uf_first(s[uf_first(s, "goroutine ")+10:], " ") < len(s) - uf_first(s, "goroutine ") - 10
+//@   ensures uf_first(s, "goroutine ") >= 0 && uf_first(s[uf_first(s, "goroutine ")+10:], " ") >= 0 ==> s[uf_first(s, "goroutine ")+10+uf_first(s[uf_first(s, "goroutine ")+10:], " ")] == ' ' && nochr(s[uf_first(s, "goroutine ")+10:uf_first(s, "goroutine ")+10+uf_first(s[uf_first(s, "goroutine ")+10:], " ")], ' ')
+//@   ensures uf_first(s, "goroutine ") >= 0 && uf_first(s[uf_first(s, "goroutine ")+10:], " ") < 0 ==> nochr(s[uf_first(s, "goroutine ")+10:], ' ')
+//@   callee Index(str, sub) (r)
+//@     ensures r == uf_first(str, sub)
+//@     ensures r >= 0 ==> seqeq(str[r:r+len(sub)], sub, 0)
+//@     ensures len(sub) > 1 ==> (forall k :: 0 <= k && k + len(sub) <= len(str) && (r < 0 || k < r) ==> !seqeq(str[k:k+len(sub)], sub, 0))
+//@     ensures len(sub) == 1 && r >= 0 ==> str[r] == sub[0] && nochr(str[:r], sub[0])
+//@     ensures len(sub) == 1 && r < 0 ==> nochr(str, sub[0])
+//@   callee Contains(str, sub) (r)
+//@     pure
+//@     ensures r == (exists k :: 0 <= k && k + len(sub) <= len(str) && seqeq(str[k:k+len(sub)], sub, 0))
+
+// (panic.+0x[0-9a-f]+), first "panic", then the first "0x" after it: at least one byte lies between them and a
+// hex digit (ascii.IsHexDigit: 0-9a-f) follows the "0x".
+//@ func containsPanicAddress
+//@   pure
+//@   ensures result == (uf_first(s, "panic") >= 0 && uf_first(s[uf_first(s, "panic")+5:], "0x") >= 1 && uf_first(s, "panic") + 5 + uf_first(s[uf_first(s, "panic")+5:], "0x") + 2 < len(s) && (('0' <= s[uf_first(s, "panic")+5+uf_first(s[uf_first(s, "panic")+5:], "0x")+2] && s[uf_first(s, "panic")+5+uf_first(s[uf_first(s, "panic")+5:], "0x")+2] <= '9') || ('a' <= s[uf_first(s, "panic")+5+uf_first(s[uf_first(s, "panic")+5:], "0x")+2] && s[uf_first(s, "panic")+5+uf_first(s[uf_first(s, "panic")+5:], "0x")+2] <= 'f')))
+//@   ensures -1 <= uf_first(s, "panic") && uf_first(s, "panic") + 5 <= len(s)
+//@   ensures uf_first(s, "panic") >= 0 ==> seqeq(s[uf_first(s, "panic"):uf_first(s, "panic")+5], "panic", 0)
+//@   ensures forall k :: 0 <= k && k + 5 <= len(s) && (uf_first(s, "panic") < 0 || k < uf_first(s, "panic")) ==> !seqeq(s[k:k+5], "panic", 0)
+//@   ensures uf_first(s, "panic") >= 0 ==> -1 <= uf_first(s[uf_first(s, "panic")+5:], "0x") && uf_first(s[uf_first(s, "panic")+5:], "0x") + 2 <= len(s) - uf_first(s, "panic") - 5
+//@   ensures uf_first(s, "panic") >= 0 && uf_first(s[uf_first(s, "panic")+5:], "0x") >= 0 ==> seqeq(s[uf_first(s, "panic")+5+uf_first(s[uf_first(s, "panic")+5:], "0x"):uf_first(s, "panic")+5+uf_first(s[uf_first(s, "panic")+5:], "0x")+2], "0x", 0)
+//@   ensures uf_first(s, "panic") >= 0 ==> (forall k :: 0 <= k && k + 2 <= len(s) - uf_first(s, "panic") - 5 && (uf_first(s[uf_first(s, "panic")+5:], "0x") < 0 || k < uf_first(s[uf_first(s, "panic")+5:], "0x")) ==> !seqeq(s[uf_first(s, "panic")+5+k:uf_first(s, "panic")+5+k+2], "0x", 0))
+//@   callee Index(str, sub) (r)
+//@     ensures r == uf_first(str, sub)
+//@     ensures r >= 0 ==> seqeq(str[r:r+len(sub)], sub, 0)
+//@     ensures len(sub) > 1 ==> (forall k :: 0 <= k && k + len(sub) <= len(str) && (r < 0 || k < r) ==> !seqeq(str[k:k+len(sub)], sub, 0))
+//@     ensures len(sub) == 1 && r >= 0 ==> str[r] == sub[0] && nochr(str[:r], sub[0])
+//@     ensures len(sub) == 1 && r < 0 ==> nochr(str, sub[0])
+
+// (\.?\w+\.?Exception:), first occurrence of "Exception:" only, at P >= 1: the byte before it is a word byte, or it is
+// '.' and the byte before that exists and is a word byte.
+//@ func containsException
+//@   pure
+//@   ensures result == (uf_first(s, "Exception:") >= 1 && ((s[uf_first(s, "Exception:")-1] == '.' && uf_first(s, "Exception:") >= 2 && (('a' <= s[uf_first(s, "Exception:")-2] && s[uf_first(s, "Exception:")-2] <= 'z') || ('A' <= s[uf_first(s, "Exception:")-2] && s[uf_first(s, "Exception:")-2] <= 'Z') || s[uf_first(s, "Exception:")-2] == '_' || ('0' <= s[uf_first(s, "Exception:")-2] && s[uf_first(s, "Exception:")-2] <= '9'))) || (s[uf_first(s, "Exception:")-1] != '.' && (('a' <= s[uf_first(s, "Exception:")-1] && s[uf_first(s, "Exception:")-1] <= 'z') || ('A' <= s[uf_first(s, "Exception:")-1] && s[uf_first(s, "Exception:")-1] <= 'Z') || s[uf_first(s, "Exception:")-1] == '_' || ('0' <= s[uf_first(s, "Exception:")-1] && s[uf_first(s, "Exception:")-1] <= '9')))))
+//@   ensures -1 <= uf_first(s, "Exception:") && uf_first(s, "Exception:") + 10 <= len(s)
+//@   ensures uf_first(s, "Exception:") >= 0 ==> seqeq(s[uf_first(s, "Exception:"):uf_first(s, "Exception:")+10], "Exception:", 0)
+//@   ensures forall k :: 0 <= k && k + 10 <= len(s) && (uf_first(s, "Exception:") < 0 || k < uf_first(s, "Exception:")) ==> !seqeq(s[k:k+10], "Exception:", 0)
+//@   callee Index(str, sub) (r)
+//@     ensures r == uf_first(str, sub)
+//@     ensures r >= 0 ==> seqeq(str[r:r+len(sub)], sub, 0)
+//@     ensures len(sub) > 1 ==> (forall k :: 0 <= k && k + len(sub) <= len(str) && (r < 0 || k < r) ==> !seqeq(str[k:k+len(sub)], sub, 0))
+//@     ensures len(sub) == 1 && r >= 0 ==> str[r] == sub[0] && nochr(str[:r], sub[0])
+//@     ensures len(sub) == 1 && r < 0 ==> nochr(str, sub[0])
+
+// equalCaseInsensitive: same length and equal after ASCII lower-casing of BOTH sides, byte by byte.
+//@ func equalCaseInsensitive
+//@   pure
+//@   ensures result == (len(a) == len(b) && (forall j :: 0 <= j && j < len(a) ==> ite('A' <= a[j] && a[j] <= 'Z', a[j] + 32, a[j]) == ite('A' <= b[j] && b[j] <= 'Z', b[j] + 32, b[j])))
+//@   loop 1 invariant len(a) == len(b) && -1 <= rangeindex && rangeindex < len(a) && (forall j :: 0 <= j && j <= rangeindex ==> ite('A' <= a[j] && a[j] <= 'Z', a[j] + 32, a[j]) == ite('A' <= b[j] && b[j] <= 'Z', b[j] + 32, b[j]))
+
+// cs_exception start (^\s*(?i)Unhandled exception): for the first non-space index f, the 19 bytes from f exist and equal
+// "unhandled exception" case-insensitively; an all-space line is no start.
+//@ func sharpStartCheck
+//@   pure
+//@   ensures (forall k :: 0 <= k && k < len(s) ==> (s[k] == ' ' || s[k] == '\n' || s[k] == '\t')) ==> !result
+//@   ensures forall f :: 0 <= f && f < len(s) && !(s[f] == ' ' || s[f] == '\n' || s[f] == '\t') && (forall k :: 0 <= k && k < f ==> (s[k] == ' ' || s[k] == '\n' || s[k] == '\t')) ==> (result == (f + 19 <= len(s) && (forall j :: 0 <= j && j < 19 ==> ite('A' <= s[f+j] && s[f+j] <= 'Z', s[f+j] + 32, s[f+j]) == ite('A' <= "unhandled exception"[j] && "unhandled exception"[j] <= 'Z', "unhandled exception"[j] + 32, "unhandled exception"[j]))))
+
+// (^\s*at\s.*): at f stands "at" followed by a space byte.
+//@ func containsAt
+//@   pure
+//@   ensures (forall k :: 0 <= k && k < len(s) ==> (s[k] == ' ' || s[k] == '\n' || s[k] == '\t')) ==> !result
+//@   ensures forall f :: 0 <= f && f < len(s) && !(s[f] == ' ' || s[f] == '\n' || s[f] == '\t') && (forall k :: 0 <= k && k < f ==> (s[k] == ' ' || s[k] == '\n' || s[k] == '\t')) ==> (result == (f + 3 <= len(s) && s[f] == 'a' && s[f+1] == 't' && (s[f+2] == ' ' || s[f+2] == '\n' || s[f+2] == '\t')))
+//@   callee HasPrefix(str, prefix) (r)
+//@     ensures r == (len(prefix) <= len(str) && seqeq(str[:len(prefix)], prefix, 0))
+
+// (\s*--->) as implemented: "--->" stands at the first non-space index.
+//@ func containsArrow
+//@   pure
+//@   ensures (forall k :: 0 <= k && k < len(s) ==> (s[k] == ' ' || s[k] == '\n' || s[k] == '\t')) ==> !result
+//@   ensures forall f :: 0 <= f && f < len(s) && !(s[f] == ' ' || s[f] == '\n' || s[f] == '\t') && (forall k :: 0 <= k && k < f ==> (s[k] == ' ' || s[k] == '\n' || s[k] == '\t')) ==> (result == (f + 4 <= len(s) && seqeq(s[f:f+4], "--->", 0)))
+//@   callee HasPrefix(str, prefix) (r)
+//@     ensures r == (len(prefix) <= len(str) && seqeq(str[:len(prefix)], prefix, 0))
+
+// (^(?i)\s*--- End of): the 10 bytes from f equal "--- End of" case-insensitively.
+//@ func containsEndOf
+//@   pure
+//@   ensures (forall k :: 0 <= k && k < len(s) ==> (s[k] == ' ' || s[k] == '\n' || s[k] == '\t')) ==> !result
+//@   ensures forall f :: 0 <= f && f < len(s) && !(s[f] == ' ' || s[f] == '\n' || s[f] == '\t') && (forall k :: 0 <= k && k < f ==> (s[k] == ' ' || s[k] == '\n' || s[k] == '\t')) ==> (result == (f + 10 <= len(s) && (forall j :: 0 <= j && j < 10 ==> ite('A' <= s[f+j] && s[f+j] <= 'Z', s[f+j] + 32, s[f+j]) == ite('A' <= "--- End of"[j] && "--- End of"[j] <= 'Z', "--- End of"[j] + 32, "--- End of"[j]))))
+
+// ([A-Za-z_][0-9]*$): the last non-digit byte exists and is a letter or '_' (i is that byte: everything after it is digits).
+//@ func endsWithIdentifier
+//@   pure
+//@   ensures allchr(s, '0', '9') ==> !result
+//@   ensures forall i :: 0 <= i && i < len(s) && !('0' <= s[i] && s[i] <= '9') && allchr(s[i+1:], '0', '9') ==> (result == (('a' <= s[i] && s[i] <= 'z') || ('A' <= s[i] && s[i] <= 'Z') || s[i] == '_'))
+//@   loop 1 invariant -1 <= i && i < len(s) && allchr(s[i+1:], '0', '9')
+
+// ([A-Za-z_]+[A-Za-z0-9_]*\)?\.[A-Za-z0-9_]+\(.*\)), last bracket pair only.  R = uf_lastb(s, ')') is the last ')' and
+// L = uf_lastb(s[:R], '(') the last '(' before it (both pinned by the first two clauses: the byte stands there, it does not
+// occur behind, -1 iff it does not occur at all); d is the boundary of the word run that ends at L-1 (s[d] is not a word
+// byte, or d == -1; exactly one d qualifies, so the clauses quantify over it).  No R, no L, an empty run, a run that
+// reaches the start of the line, or s[d] != '.' : false.  Otherwise an optional ')' before the dot is skipped and the
+// result is that of [A-Za-z_][0-9]*$ on what precedes (two clauses each: bracket skipped / not skipped; i is the last
+// non-digit byte there).  At the call of strings.LastIndexByte `r == uf_lastb(str, c)` names the result (assumed, listed);
+// its meaning is the library contract in /verif/contracts-lib.
+//@ func containsCall
+//@   pure
+//@   ensures -1 <= uf_lastb(s, ')') && uf_lastb(s, ')') < len(s) && (uf_lastb(s, ')') >= 0 ==> s[uf_lastb(s, ')')] == ')' && nochr(s[uf_lastb(s, ')')+1:], ')')) && (uf_lastb(s, ')') < 0 ==> nochr(s, ')'))
+//@   ensures uf_lastb(s, ')') >= 0 ==> -1 <= uf_lastb(s[:uf_lastb(s, ')')], '(') && uf_lastb(s[:uf_lastb(s, ')')], '(') < uf_lastb(s, ')') && (uf_lastb(s[:uf_lastb(s, ')')], '(') >= 0 ==> s[uf_lastb(s[:uf_lastb(s, ')')], '(')] == '(' && nochr(s[uf_lastb(s[:uf_lastb(s, ')')], '(')+1:uf_lastb(s, ')')], '(')) && (uf_lastb(s[:uf_lastb(s, ')')], '(') < 0 ==> nochr(s[:uf_lastb(s, ')')], '('))
+//@   ensures uf_lastb(s, ')') < 0 || uf_lastb(s[:uf_lastb(s, ')')], '(') < 0 ==> !result
+//@   ensures forall d :: uf_lastb(s, ')') >= 0 && uf_lastb(s[:uf_lastb(s, ')')], '(') >= 0 && -1 <= d && d < uf_lastb(s[:uf_lastb(s, ')')], '(') && (d >= 0 ==> !(('a' <= s[d] && s[d] <= 'z') || ('A' <= s[d] && s[d] <= 'Z') || s[d] == '_' || ('0' <= s[d] && s[d] <= '9'))) && (forall k :: d < k && k < uf_lastb(s[:uf_lastb(s, ')')], '(') ==> (('a' <= s[k] && s[k] <= 'z') || ('A' <= s[k] && s[k] <= 'Z') || s[k] == '_' || ('0' <= s[k] && s[k] <= '9'))) && (d == uf_lastb(s[:uf_lastb(s, ')')], '(') - 1 || d < 0 || s[d] != '.') ==> !result
+//@   ensures forall d :: uf_lastb(s, ')') >= 0 && uf_lastb(s[:uf_lastb(s, ')')], '(') >= 0 && -1 <= d && d < uf_lastb(s[:uf_lastb(s, ')')], '(') && (d >= 0 ==> !(('a' <= s[d] && s[d] <= 'z') || ('A' <= s[d] && s[d] <= 'Z') || s[d] == '_' || ('0' <= s[d] && s[d] <= '9'))) && (forall k :: d < k && k < uf_lastb(s[:uf_lastb(s, ')')], '(') ==> (('a' <= s[k] && s[k] <= 'z') || ('A' <= s[k] && s[k] <= 'Z') || s[k] == '_' || ('0' <= s[k] && s[k] <= '9'))) && d < uf_lastb(s[:uf_lastb(s, ')')], '(') - 1 && d >= 0 && s[d] == '.' && d >= 1 && s[d-1] == ')' && allchr(s[:d-1], '0', '9') ==> !result
+//@   ensures forall d :: uf_lastb(s, ')') >= 0 && uf_lastb(s[:uf_lastb(s, ')')], '(') >= 0 && -1 <= d && d < uf_lastb(s[:uf_lastb(s, ')')], '(') && (d >= 0 ==> !(('a' <= s[d] && s[d] <= 'z') || ('A' <= s[d] && s[d] <= 'Z') || s[d] == '_' || ('0' <= s[d] && s[d] <= '9'))) && (forall k :: d < k && k < uf_lastb(s[:uf_lastb(s, ')')], '(') ==> (('a' <= s[k] && s[k] <= 'z') || ('A' <= s[k] && s[k] <= 'Z') || s[k] == '_' || ('0' <= s[k] && s[k] <= '9'))) && d < uf_lastb(s[:uf_lastb(s, ')')], '(') - 1 && d >= 0 && s[d] == '.' && !(d >= 1 && s[d-1] == ')') && allchr(s[:d], '0', '9') ==> !result
+//@   ensures forall d, i :: uf_lastb(s, ')') >= 0 && uf_lastb(s[:uf_lastb(s, ')')], '(') >= 0 && -1 <= d && d < uf_lastb(s[:uf_lastb(s, ')')], '(') && (d >= 0 ==> !(('a' <= s[d] && s[d] <= 'z') || ('A' <= s[d] && s[d] <= 'Z') || s[d] == '_' || ('0' <= s[d] && s[d] <= '9'))) && (forall k :: d < k && k < uf_lastb(s[:uf_lastb(s, ')')], '(') ==> (('a' <= s[k] && s[k] <= 'z') || ('A' <= s[k] && s[k] <= 'Z') || s[k] == '_' || ('0' <= s[k] && s[k] <= '9'))) && d < uf_lastb(s[:uf_lastb(s, ')')], '(') - 1 && d >= 0 && s[d] == '.' && d >= 1 && s[d-1] == ')' && 0 <= i && i < d - 1 && !('0' <= s[i] && s[i] <= '9') && allchr(s[i+1:d-1], '0', '9') ==> (result == (('a' <= s[i] && s[i] <= 'z') || ('A' <= s[i] && s[i] <= 'Z') || s[i] == '_'))
+//@   ensures forall d, i :: uf_lastb(s, ')') >= 0 && uf_lastb(s[:uf_lastb(s, ')')], '(') >= 0 && -1 <= d && d < uf_lastb(s[:uf_lastb(s, ')')], '(') && (d >= 0 ==> !(('a' <= s[d] && s[d] <= 'z') || ('A' <= s[d] && s[d] <= 'Z') || s[d] == '_' || ('0' <= s[d] && s[d] <= '9'))) && (forall k :: d < k && k < uf_lastb(s[:uf_lastb(s, ')')], '(') ==> (('a' <= s[k] && s[k] <= 'z') || ('A' <= s[k] && s[k] <= 'Z') || s[k] == '_' || ('0' <= s[k] && s[k] <= '9'))) && d < uf_lastb(s[:uf_lastb(s, ')')], '(') - 1 && d >= 0 && s[d] == '.' && d >= 1 && s[d-1] != ')' && 0 <= i && i < d && !('0' <= s[i] && s[i] <= '9') && allchr(s[i+1:d], '0', '9') ==> (result == (('a' <= s[i] && s[i] <= 'z') || ('A' <= s[i] && s[i] <= 'Z') || s[i] == '_'))
+//@   loop 1 invariant -1 <= left && left <= right && (forall k :: left < k && k <= right ==> (('a' <= s[k] && s[k] <= 'z') || ('A' <= s[k] && s[k] <= 'Z') || s[k] == '_' || ('0' <= s[k] && s[k] <= '9')))
+//@   callee LastIndexByte(str, c) (r)
+//@     ensures r == uf_lastb(str, c)
+
+// cs_exception continue = at || arrow || End of || exception, on the same line: for the first non-space index f the
+// result is the disjunction of the four patterns at f (all-space line: only the exception pattern can apply).
+//@ func sharpContinueCheck
+//@   pure
+//@   ensures (forall k :: 0 <= k && k < len(s) ==> (s[k] == ' ' || s[k] == '\n' || s[k] == '\t')) ==> (result == (uf_first(s, "Exception:") >= 1 && ((s[uf_first(s, "Exception:")-1] == '.' && uf_first(s, "Exception:") >= 2 && (('a' <= s[uf_first(s, "Exception:")-2] && s[uf_first(s, "Exception:")-2] <= 'z') || ('A' <= s[uf_first(s, "Exception:")-2] && s[uf_first(s, "Exception:")-2] <= 'Z') || s[uf_first(s, "Exception:")-2] == '_' || ('0' <= s[uf_first(s, "Exception:")-2] && s[uf_first(s, "Exception:")-2] <= '9'))) || (s[uf_first(s, "Exception:")-1] != '.' && (('a' <= s[uf_first(s, "Exception:")-1] && s[uf_first(s, "Exception:")-1] <= 'z') || ('A' <= s[uf_first(s, "Exception:")-1] && s[uf_first(s, "Exception:")-1] <= 'Z') || s[uf_first(s, "Exception:")-1] == '_' || ('0' <= s[uf_first(s, "Exception:")-1] && s[uf_first(s, "Exception:")-1] <= '9'))))))
+//@   ensures forall f :: 0 <= f && f < len(s) && !(s[f] == ' ' || s[f] == '\n' || s[f] == '\t') && (forall k :: 0 <= k && k < f ==> (s[k] == ' ' || s[k] == '\n' || s[k] == '\t')) ==> (result == ((f + 3 <= len(s) && s[f] == 'a' && s[f+1] == 't' && (s[f+2] == ' ' || s[f+2] == '\n' || s[f+2] == '\t')) || (f + 4 <= len(s) && seqeq(s[f:f+4], "--->", 0)) || (f + 10 <= len(s) && (forall j :: 0 <= j && j < 10 ==> ite('A' <= s[f+j] && s[f+j] <= 'Z', s[f+j] + 32, s[f+j]) == ite('A' <= "--- End of"[j] && "--- End of"[j] <= 'Z', "--- End of"[j] + 32, "--- End of"[j]))) || (uf_first(s, "Exception:") >= 1 && ((s[uf_first(s, "Exception:")-1] == '.' && uf_first(s, "Exception:") >= 2 && (('a' <= s[uf_first(s, "Exception:")-2] && s[uf_first(s, "Exception:")-2] <= 'z') || ('A' <= s[uf_first(s, "Exception:")-2] && s[uf_first(s, "Exception:")-2] <= 'Z') || s[uf_first(s, "Exception:")-2] == '_' || ('0' <= s[uf_first(s, "Exception:")-2] && s[uf_first(s, "Exception:")-2] <= '9'))) || (s[uf_first(s, "Exception:")-1] != '.' && (('a' <= s[uf_first(s, "Exception:")-1] && s[uf_first(s, "Exception:")-1] <= 'z') || ('A' <= s[uf_first(s, "Exception:")-1] && s[uf_first(s, "Exception:")-1] <= 'Z') || s[uf_first(s, "Exception:")-1] == '_' || ('0' <= s[uf_first(s, "Exception:")-1] && s[uf_first(s, "Exception:")-1] <= '9')))))))
+
+// go_panic continue: each of the eight closed patterns alone makes the line a continuation (8 clauses), a continuation
+// line satisfies one of them or the call pattern (ghost gcall = verdict of containsCall on this very line, whose meaning
+// is restated by the eight "called ==>" clauses, copies of containsCall's postconditions), and a rejected line was rejected by containsCall too (so the call
+// cannot be dropped).  "<autogenerated>:" is an alternative of the code that the regular expression quoted in
+// template.go does not have (the comment is stale; the alternative is kept here as documented by the code).
+//@ func goPanicContinueCheck
+//@   pure
+//@   ghost called bool = false
+//@   ghost gcall bool = false
+//@   ensures called ==> (-1 <= uf_lastb(s, ')') && uf_lastb(s, ')') < len(s) && (uf_lastb(s, ')') >= 0 ==> s[uf_lastb(s, ')')] == ')' && nochr(s[uf_lastb(s, ')')+1:], ')')) && (uf_lastb(s, ')') < 0 ==> nochr(s, ')')))
+//@   ensures called ==> (uf_lastb(s, ')') >= 0 ==> -1 <= uf_lastb(s[:uf_lastb(s, ')')], '(') && uf_lastb(s[:uf_lastb(s, ')')], '(') < uf_lastb(s, ')') && (uf_lastb(s[:uf_lastb(s, ')')], '(') >= 0 ==> s[uf_lastb(s[:uf_lastb(s, ')')], '(')] == '(' && nochr(s[uf_lastb(s[:uf_lastb(s, ')')], '(')+1:uf_lastb(s, ')')], '(')) && (uf_lastb(s[:uf_lastb(s, ')')], '(') < 0 ==> nochr(s[:uf_lastb(s, ')')], '(')))
+//@   ensures called ==> (uf_lastb(s, ')') < 0 || uf_lastb(s[:uf_lastb(s, ')')], '(') < 0 ==> !gcall)
+//@   ensures called ==> (forall d :: uf_lastb(s, ')') >= 0 && uf_lastb(s[:uf_lastb(s, ')')], '(') >= 0 && -1 <= d && d < uf_lastb(s[:uf_lastb(s, ')')], '(') && (d >= 0 ==> !(('a' <= s[d] && s[d] <= 'z') || ('A' <= s[d] && s[d] <= 'Z') || s[d] == '_' || ('0' <= s[d] && s[d] <= '9'))) && (forall k :: d < k && k < uf_lastb(s[:uf_lastb(s, ')')], '(') ==> (('a' <= s[k] && s[k] <= 'z') || ('A' <= s[k] && s[k] <= 'Z') || s[k] == '_' || ('0' <= s[k] && s[k] <= '9'))) && (d == uf_lastb(s[:uf_lastb(s, ')')], '(') - 1 || d < 0 || s[d] != '.') ==> !gcall)
+//@   ensures called ==> (forall d :: uf_lastb(s, ')') >= 0 && uf_lastb(s[:uf_lastb(s, ')')], '(') >= 0 && -1 <= d && d < uf_lastb(s[:uf_lastb(s, ')')], '(') && (d >= 0 ==> !(('a' <= s[d] && s[d] <= 'z') || ('A' <= s[d] && s[d] <= 'Z') || s[d] == '_' || ('0' <= s[d] && s[d] <= '9'))) && (forall k :: d < k && k < uf_lastb(s[:uf_lastb(s, ')')], '(') ==> (('a' <= s[k] && s[k] <= 'z') || ('A' <= s[k] && s[k] <= 'Z') || s[k] == '_' || ('0' <= s[k] && s[k] <= '9'))) && d < uf_lastb(s[:uf_lastb(s, ')')], '(') - 1 && d >= 0 && s[d] == '.' && d >= 1 && s[d-1] == ')' && allchr(s[:d-1], '0', '9') ==> !gcall)
+//@   ensures called ==> (forall d :: uf_lastb(s, ')') >= 0 && uf_lastb(s[:uf_lastb(s, ')')], '(') >= 0 && -1 <= d && d < uf_lastb(s[:uf_lastb(s, ')')], '(') && (d >= 0 ==> !(('a' <= s[d] && s[d] <= 'z') || ('A' <= s[d] && s[d] <= 'Z') || s[d] == '_' || ('0' <= s[d] && s[d] <= '9'))) && (forall k :: d < k && k < uf_lastb(s[:uf_lastb(s, ')')], '(') ==> (('a' <= s[k] && s[k] <= 'z') || ('A' <= s[k] && s[k] <= 'Z') || s[k] == '_' || ('0' <= s[k] && s[k] <= '9'))) && d < uf_lastb(s[:uf_lastb(s, ')')], '(') - 1 && d >= 0 && s[d] == '.' && !(d >= 1 && s[d-1] == ')') && allchr(s[:d], '0', '9') ==> !gcall)
+//@   ensures called ==> (forall d, i :: uf_lastb(s, ')') >= 0 && uf_lastb(s[:uf_lastb(s, ')')], '(') >= 0 && -1 <= d && d < uf_lastb(s[:uf_lastb(s, ')')], '(') && (d >= 0 ==> !(('a' <= s[d] && s[d] <= 'z') || ('A' <= s[d] && s[d] <= 'Z') || s[d] == '_' || ('0' <= s[d] && s[d] <= '9'))) && (forall k :: d < k && k < uf_lastb(s[:uf_lastb(s, ')')], '(') ==> (('a' <= s[k] && s[k] <= 'z') || ('A' <= s[k] && s[k] <= 'Z') || s[k] == '_' || ('0' <= s[k] && s[k] <= '9'))) && d < uf_lastb(s[:uf_lastb(s, ')')], '(') - 1 && d >= 0 && s[d] == '.' && d >= 1 && s[d-1] == ')' && 0 <= i && i < d - 1 && !('0' <= s[i] && s[i] <= '9') && allchr(s[i+1:d-1], '0', '9') ==> (gcall == (('a' <= s[i] && s[i] <= 'z') || ('A' <= s[i] && s[i] <= 'Z') || s[i] == '_')))
+//@   ensures called ==> (forall d, i :: uf_lastb(s, ')') >= 0 && uf_lastb(s[:uf_lastb(s, ')')], '(') >= 0 && -1 <= d && d < uf_lastb(s[:uf_lastb(s, ')')], '(') && (d >= 0 ==> !(('a' <= s[d] && s[d] <= 'z') || ('A' <= s[d] && s[d] <= 'Z') || s[d] == '_' || ('0' <= s[d] && s[d] <= '9'))) && (forall k :: d < k && k < uf_lastb(s[:uf_lastb(s, ')')], '(') ==> (('a' <= s[k] && s[k] <= 'z') || ('A' <= s[k] && s[k] <= 'Z') || s[k] == '_' || ('0' <= s[k] && s[k] <= '9'))) && d < uf_lastb(s[:uf_lastb(s, ')')], '(') - 1 && d >= 0 && s[d] == '.' && d >= 1 && s[d-1] != ')' && 0 <= i && i < d && !('0' <= s[i] && s[i] <= '9') && allchr(s[i+1:d], '0', '9') ==> (gcall == (('a' <= s[i] && s[i] <= 'z') || ('A' <= s[i] && s[i] <= 'Z') || s[i] == '_')))
+//@   ensures !result ==> called && !gcall
+//@   ensures result ==> (7 <= len(s) && seqeq(s[:7], "[signal", 0)) || (forall k :: 0 <= k && k < len(s) ==> (s[k] == ' ' || s[k] == '\n' || s[k] == '\t')) || (uf_first(s, "goroutine ") >= 0 && uf_first(s[uf_first(s, "goroutine ")+10:], " ") >= 1 && allchr(s[uf_first(s, "goroutine ")+10:uf_first(s, "goroutine ")+10+uf_first(s[uf_first(s, "goroutine ")+10:], " ")], '0', '9') && (exists q :: 0 <= q && q + 2 <= len(s[uf_first(s, "goroutine ")+10+uf_first(s[uf_first(s, "goroutine ")+10:], " "):]) && seqeq(s[uf_first(s, "goroutine ")+10+uf_first(s[uf_first(s, "goroutine ")+10:], " "):][q:q+2], " [", 0))) || (uf_first(s, ".go:") >= 0 && uf_first(s, ".go:") + 4 < len(s) && '0' <= s[uf_first(s, ".go:")+4] && s[uf_first(s, ".go:")+4] <= '9') || (exists p :: 0 <= p && p + 11 <= len(s) && seqeq(s[p:p+11], "created by ", 0) && !nochr(s[p+11:], '.')) || (uf_first(s, "panic") >= 0 && uf_first(s[uf_first(s, "panic")+5:], "0x") >= 1 && uf_first(s, "panic") + 5 + uf_first(s[uf_first(s, "panic")+5:], "0x") + 2 < len(s) && (('0' <= s[uf_first(s, "panic")+5+uf_first(s[uf_first(s, "panic")+5:], "0x")+2] && s[uf_first(s, "panic")+5+uf_first(s[uf_first(s, "panic")+5:], "0x")+2] <= '9') || ('a' <= s[uf_first(s, "panic")+5+uf_first(s[uf_first(s, "panic")+5:], "0x")+2] && s[uf_first(s, "panic")+5+uf_first(s[uf_first(s, "panic")+5:], "0x")+2] <= 'f'))) || (exists k :: 0 <= k && k + 6 <= len(s) && seqeq(s[k:k+6], "panic:", 0)) || (exists k :: 0 <= k && k + 16 <= len(s) && seqeq(s[k:k+16], "<autogenerated>:", 0)) || (called && gcall)
+//@   ensures (7 <= len(s) && seqeq(s[:7], "[signal", 0)) ==> result
+//@   ensures (forall k :: 0 <= k && k < len(s) ==> (s[k] == ' ' || s[k] == '\n' || s[k] == '\t')) ==> result
+//@   ensures (uf_first(s, "goroutine ") >= 0 && uf_first(s[uf_first(s, "goroutine ")+10:], " ") >= 1 && allchr(s[uf_first(s, "goroutine ")+10:uf_first(s, "goroutine ")+10+uf_first(s[uf_first(s, "goroutine ")+10:], " ")], '0', '9') && (exists q :: 0 <= q && q + 2 <= len(s[uf_first(s, "goroutine ")+10+uf_first(s[uf_first(s, "goroutine ")+10:], " "):]) && seqeq(s[uf_first(s, "goroutine ")+10+uf_first(s[uf_first(s, "goroutine ")+10:], " "):][q:q+2], " [", 0))) ==> result
+//@   ensures (uf_first(s, ".go:") >= 0 && uf_first(s, ".go:") + 4 < len(s) && '0' <= s[uf_first(s, ".go:")+4] && s[uf_first(s, ".go:")+4] <= '9') ==> result
+//@   ensures (exists p :: 0 <= p && p + 11 <= len(s) && seqeq(s[p:p+11], "created by ", 0) && !nochr(s[p+11:], '.')) ==> result
+//@   ensures (uf_first(s, "panic") >= 0 && uf_first(s[uf_first(s, "panic")+5:], "0x") >= 1 && uf_first(s, "panic") + 5 + uf_first(s[uf_first(s, "panic")+5:], "0x") + 2 < len(s) && (('0' <= s[uf_first(s, "panic")+5+uf_first(s[uf_first(s, "panic")+5:], "0x")+2] && s[uf_first(s, "panic")+5+uf_first(s[uf_first(s, "panic")+5:], "0x")+2] <= '9') || ('a' <= s[uf_first(s, "panic")+5+uf_first(s[uf_first(s, "panic")+5:], "0x")+2] && s[uf_first(s, "panic")+5+uf_first(s[uf_first(s, "panic")+5:], "0x")+2] <= 'f'))) ==> result
+//@   ensures (exists k :: 0 <= k && k + 6 <= len(s) && seqeq(s[k:k+6], "panic:", 0)) ==> result
+//@   ensures (exists k :: 0 <= k && k + 16 <= len(s) && seqeq(s[k:k+16], "<autogenerated>:", 0)) ==> result
+//@   callee HasPrefix(str, prefix) (r)
+//@     ensures r == (len(prefix) <= len(str) && seqeq(str[:len(prefix)], prefix, 0))
+//@   callee Contains(str, sub) (r)
+//@     pure
+//@     ensures r == (exists k :: 0 <= k && k + len(sub) <= len(str) && seqeq(str[k:k+len(sub)], sub, 0))
+//@   callee containsCall(x) (r)
+//@     set called := true
+//@     set gcall := r
+
+// InitTemplate: a template is returned without error only with both matchers set; with an error the zero template.
+// The table itself (which matcher belongs to which name, Negate of go_data_race) is built by the package initialiser,
+// which govc cannot put under contract (map contents are not modelled).
+//@ func InitTemplate
+//@   pure
+//@   ensures result1 == nil ==> !isnil(result0.StartCheck) && !isnil(result0.ContinueCheck)
+//@   ensures result1 != nil ==> isnil(result0.StartCheck) && isnil(result0.ContinueCheck) && !result0.Negate
